@@ -164,6 +164,7 @@ func WorkerMain(t *testing.T, reg map[string]Harness) {
 				break
 			}
 			seed := RunSeed(vs, os.Getenv("DSIM_HARNESS"), i)
+			curRunIndex = i
 			sc := h.Generate(seed, tier)
 			res := RunInBubble(t, "r", func(t *testing.T) *Result { return h.Execute(t, sc) })
 			res.Seed = seed
@@ -174,6 +175,7 @@ func WorkerMain(t *testing.T, reg map[string]Harness) {
 				t.Fatalf("dsim worker: %v", err)
 			}
 			w.Flush()
+			SkipCases = 0 // a resume offset applies to the first run of the range only
 		}
 	case "replay", "shrinks":
 		b, err := os.ReadFile(os.Getenv("DSIM_SCENARIO"))
@@ -203,6 +205,50 @@ func WorkerMain(t *testing.T, reg map[string]Harness) {
 		enc.Encode(res)
 	default:
 		t.Fatalf("dsim worker: unknown mode %q", mode)
+	}
+}
+
+// ---- crash sentinel -----------------------------------------------------------------------------
+//
+// dolt runs some work in helper goroutines (errgroup); a panic there kills the whole OS process and
+// cannot be recovered by the harness. Before a step that may do so the harness arms a sentinel
+// describing the case in flight; if the worker dies, the coordinator turns the sentinel plus the
+// panic trace into a violation ("the process crashed") and replays it to confirm.
+
+type Sentinel struct {
+	RunIndex uint64     `json:"run_index"`
+	Seed     uint64     `json:"seed"`
+	Class    string     `json:"class"`
+	Key      string     `json:"key"`
+	Detail   string     `json:"detail"`
+	Scenario *Scenario  `json:"scenario"`
+	Case     int        `json:"case"` // index of the case in flight within the run (for resuming after it)
+}
+
+// SkipCases is set by the coordinator when it resumes a run after a crash of the process: the
+// harness skips that many leading cases of its enumeration.
+var SkipCases = func() int { n, _ := strconv.Atoi(os.Getenv("DSIM_SKIP")); return n }()
+
+var sentinelPath = os.Getenv("DSIM_SENTINEL")
+var curRunIndex uint64
+
+// ArmSentinel records the case about to run. pinned is the scenario body that replays it.
+func ArmSentinel(sc *Scenario, pinned []byte, caseIdx int, class, key, detail string) {
+	if sentinelPath == "" {
+		return
+	}
+	c := *sc
+	if pinned != nil {
+		c.Body = pinned
+	}
+	b, _ := json.Marshal(Sentinel{RunIndex: curRunIndex, Seed: sc.Seed, Case: caseIdx, Class: class, Key: key, Detail: detail, Scenario: &c})
+	os.WriteFile(sentinelPath, b, 0o644)
+}
+
+// DisarmSentinel removes the sentinel.
+func DisarmSentinel() {
+	if sentinelPath != "" {
+		os.Remove(sentinelPath)
 	}
 }
 
